@@ -114,6 +114,12 @@ class Chop:
         a.k.a. start -> end and c2c -> 1/c2c."""
         self.end_size, self.start_size = self.start_size, self.end_size
 
+        # the size to be preserved sits at the other end now
+        if self.preserve == "start_size":
+            self.preserve = "end_size"
+        elif self.preserve == "end_size":
+            self.preserve = "start_size"
+
         if self.c2c_expansion is not None:
             self.c2c_expansion = 1 / self.c2c_expansion
 
